@@ -30,3 +30,13 @@ Definition key_with (sep : string) (issuer : bytes) (serial : Z) : bytes :=
 (* the separator each of the four sites uses, in srcfacts order:
    map insert, map lookup, leveldb insert, leveldb lookup *)
 Definition sep_at (n : nat) : string := nth n GenFacts.key_separators ""%string.
+
+(* hex text (as written by the harness) -> bytes *)
+Definition hex_val (a : ascii) : N :=
+  let n := N_of_ascii a in
+  if (n <? 58)%N then (n - 48)%N else if (n <? 71)%N then (n - 55)%N else (n - 87)%N.
+Fixpoint hex_decode (s : string) : bytes :=
+  match s with
+  | String a (String b r) => (hex_val a * 16 + hex_val b)%N :: hex_decode r
+  | _ => []
+  end.
